@@ -22,7 +22,7 @@ P('C03', 'exploration', 'runtime monitoring: undo+redo history checker (ApplyDoc
   'Held on every successful bundle explored: undo followed by ApplyDocActions(stored) reproduces the post-bundle snapshot.',
   'Same trusted base as C01.')
 P('C04', 'fault_enumeration', 'runtime monitoring with fault injection: one-shot failpoints enumerated over the call boundaries each bundle crosses + naturally failing bundles; no-trace oracle',
-  'For every explored bundle every failpoint position (thorough) / every position of short bundles and a seeded stride of long ones (quick) was fired once; after each failure the snapshot equals the pre-state, internal schema equals metadata and Calculate emits nothing.',
+  'For every explored bundle every failpoint position of bundles with up to 12 positions, and a seeded stride through the positions of longer ones, was fired once (both tiers; thorough = four seed families of the quick workload); after each failure the snapshot equals the pre-state, internal schema equals metadata and Calculate emits nothing.',
   'Failpoints are at entry/exit of functions that can raise in the real program, never inside the engine\'s recovery code; faults swallowed by formula evaluation are not judged.')
 P('C08', 'exploration', 'runtime monitoring: invariant hook at quiescent points (internal schema vs schema rebuilt from metadata snapshot)',
   'Held after every bundle (successful or failed) of schema-heavy histories: Engine.schema, live column objects and generated classes equal a schema rebuilt independently from the metadata rows; no stray column records.',
@@ -60,7 +60,7 @@ def main():
     'engines': [{'name': 'grist-runtime-monitor', 'path': 'vlib', 'serves_properties': [c['property_id'] for c in checks],
                  'kind_free_text': 'runtime monitoring: real engine processes behind the real sandbox pipe, history/reference-model/invariant/contract monitors, failpoints, evaluation-order permutation'}],
     'checks': checks,
-    'notes': 'See DESIGN.md. Exit 0 held / 1 VIOLATION / 3 INCONCLUSIVE (never expected on the unchanged tree). Known findings: known_findings.jsonl.',
+    'notes': 'See DESIGN.md. Exit 0 held / 1 VIOLATION / 3 INCONCLUSIVE (never expected on the unchanged tree). Known findings ledger: known_findings.txt (open entries print KNOWN-FINDING and exit 0; fixed entries suppress nothing).',
     'not_applicable': na,
   }
   with open(os.path.join(VERIF, 'MANIFEST.json'), 'w') as f:
